@@ -17,6 +17,36 @@ public:
 	::mpt::queue &raw() { return _d; }
 };
 static xqueue *xq;
+
+/* `xe` ops: an mpt::encode_queue (mpt++/queue.cpp) without encoder whose content is all finished data; trim(n)
+ * removes n finished bytes at the front */
+class xencq : public mpt::encode_queue
+{
+public:
+	xencq() : mpt::encode_queue(0) { }
+	void fill(size_t a, size_t b, const uint8_t *dat, size_t dlen)
+	{
+		free(base);
+		base = a ? calloc(a, 1) : 0;
+		max = a; off = b; len = dlen;
+		for (size_t i = 0; i < dlen; i++) ((uint8_t *) base)[(b + i) % a] = dat[i];
+		_state.done = dlen;
+		_state.scratch = 0;
+	}
+	size_t finished() const { return _state.done; }
+	~xencq() { free(base); base = 0; max = len = off = 0; }
+};
+static xencq *xe;
+static void xe_result(const char *verdict, const char *ret)
+{
+	printf("R %s out=- | C ", verdict);
+	if (!xe->len) fputc('-', stdout);
+	for (size_t i = 0; i < xe->len; i++) {
+		uint8_t b = ((uint8_t *) xe->base)[xe->max ? (xe->off + i) % xe->max : 0];
+		drv_puthex(stdout, &b, 1);
+	}
+	printf(" | I ret=%s len=%zu max=%zu off=%zu\n", ret, xe->len, xe->max, xe->off);
+}
 static mpt::pipe<uint16_t> *xp;   /* holds the reference; its destructor pops everything and releases the instance */
 
 static void put_content(void)
@@ -46,10 +76,28 @@ int main(void)
 	while (fgets(line, sizeof(line), stdin)) {
 		if (line[0] == '#' || line[0] == '\n') { fputs(line, stdout); continue; }
 		drv_split(line);
-		if (drv_nw < 2 || strcmp(drv_w[0], "xq")) { puts("bad-op"); continue; }
+		if (drv_nw < 2 || (strcmp(drv_w[0], "xq") && strcmp(drv_w[0], "xe"))) { puts("bad-op"); continue; }
 		const char *op = drv_w[1];
 		size_t a, b;
 		uint8_t *dat = 0; size_t dlen = 0; int isnull = 0;
+		if (!strcmp(drv_w[0], "xe")) {
+			if (!strcmp(op, "new") && drv_nw == 5) {
+				if (drv_parse_nat(drv_w[2], &a) || drv_parse_nat(drv_w[3], &b) || drv_parse_data(drv_w[4], &dat, &dlen, &isnull) || isnull
+				    || b > a || dlen > a) { puts("bad-op"); free(dat); continue; }
+				delete xe;
+				xe = new xencq();
+				xe->fill(a, b, dat, dlen);
+				free(dat);
+				xe_result("ok", "0");
+			}
+			else if (!strcmp(op, "trim") && drv_nw == 3 && xe) {
+				if (drv_parse_nat(drv_w[2], &a)) { puts("bad-op"); continue; }
+				bool r = xe->trim(a);
+				xe_result(r ? "ok" : "refused", r ? "true" : "false");
+			}
+			else puts("bad-op");
+			continue;
+		}
 		if (!strcmp(op, "new") && drv_nw == 5) {
 			/* xq new <max> <off> <fill>: capacity max (multiple of 8 or 0), start offset, content */
 			if (drv_parse_nat(drv_w[2], &a) || drv_parse_nat(drv_w[3], &b) || drv_parse_data(drv_w[4], &dat, &dlen, &isnull) || isnull
@@ -128,5 +176,6 @@ int main(void)
 		else puts("bad-op");
 	}
 	delete xp;
+	delete xe;
 	return 0;
 }
